@@ -9,6 +9,7 @@ package p2p
 import (
 	"fmt"
 	"net"
+	"strings"
 	"testing"
 	"time"
 
@@ -21,7 +22,91 @@ import (
 func c16NodeKey(i int) crypto.PrivKey {
 	return ed25519.GenPrivKeyFromSecret([]byte(fmt.Sprintf("verif-c16-node-%d", i)))
 }
-func c16ID(i int) ID { return PubKeyToID(c16NodeKey(i).PubKey()) }
+func c16ID(i int) ID {
+	if i >= 10 {
+		return c16NearMiss(i)
+	}
+	return PubKeyToID(c16NodeKey(i).PubKey())
+}
+
+// Identities 10..19 are NEAR-MISS ids of node 2's id (40 hex characters): they belong to no key
+// of the scenario and differ from PubKeyToID(key of node 2) as little as possible.
+//   10..14  the same first k = 1, 19, 20, 21, 39 characters, every later character changed
+//           (14: only the last character differs)
+//   15..18  a single character changed at position 0, 19, 20, 38
+//   19      the same id in upper case
+var c16NearMissNames = map[int]string{
+	10: "node 2's id with all but the first 1 characters changed",
+	11: "node 2's id with all but the first 19 characters changed",
+	12: "node 2's id with all but the first 20 characters changed",
+	13: "node 2's id with all but the first 21 characters changed",
+	14: "node 2's id with only the last character changed",
+	15: "node 2's id with only character 0 changed",
+	16: "node 2's id with only character 19 changed",
+	17: "node 2's id with only character 20 changed",
+	18: "node 2's id with only character 38 changed",
+	19: "node 2's id in upper case",
+}
+
+func c16FlipHex(c byte) byte {
+	const digits = "0123456789abcdef"
+	v := strings.IndexByte(digits, c)
+	if v < 0 {
+		return '0'
+	}
+	return digits[v^1]
+}
+
+func c16NearMiss(i int) ID {
+	base := []byte(PubKeyToID(c16NodeKey(2).PubKey()))
+	out := append([]byte{}, base...)
+	switch {
+	case i >= 10 && i <= 14:
+		k := []int{1, 19, 20, 21, 39}[i-10]
+		for j := k; j < len(out); j++ {
+			out[j] = c16FlipHex(out[j])
+		}
+	case i >= 15 && i <= 18:
+		k := []int{0, 19, 20, 38}[i-15]
+		out[k] = c16FlipHex(out[k])
+	default:
+		up := []byte(strings.ToUpper(string(base)))
+		if string(up) == string(base) { // no letter in the id: change the last character instead
+			up[len(up)-1] = c16FlipHex(up[len(up)-1])
+		}
+		out = up
+	}
+	return ID(out)
+}
+
+func c16IDName(i int) string {
+	if n, ok := c16NearMissNames[i]; ok {
+		return fmt.Sprintf("%d (%s: %s)", i, n, c16ID(i))
+	}
+	return fmt.Sprint(i)
+}
+
+// c16Class: the text-free result class of upgrade / Dial / Accept
+func c16Class(err error) int {
+	if err == nil {
+		return 0
+	}
+	if e, ok := err.(ErrRejected); ok {
+		switch {
+		case e.IsSelf():
+			return 6
+		case e.IsNodeInfoInvalid():
+			return 4
+		case e.IsIncompatible():
+			return 7
+		case e.IsAuthFailure() && e.id != "":
+			return 2 // dialled-id or NodeInfo-id mismatch
+		case e.IsAuthFailure():
+			return 1 // secret connection or NodeInfo exchange failed
+		}
+	}
+	return 9
+}
 
 // the remote transport rejects for its own reasons and would close the pipe while the observed
 // end is still finishing (net.Pipe reports a closed remote even from SetDeadline): keep the pipe
@@ -67,6 +152,11 @@ func TestVerifC16Upgrade(t *testing.T) {
 		{1, 2, 2, 2, true, true}, {2, 2, 0, 2, true, true}, {2, 2, 2, 2, true, true},
 		{2, 2, 3, 2, true, true}, {0, 2, 0, 3, false, true}, {0, 2, 0, 3, true, false},
 	}
+	// near-miss ids: in the NodeInfo (inbound and dialled), and as the dialled id
+	for nm := 10; nm <= 19; nm++ {
+		grid = append(grid, sc{0, 2, 0, nm, true, true}, sc{0, 2, 2, nm, true, true}, sc{0, 2, nm, 2, true, true})
+	}
+	grid = append(grid, sc{0, 2, 12, 12, true, true}, sc{0, 2, 14, 14, true, true}, sc{0, 2, 19, 19, true, true})
 	n := len(grid) + vg.Scale(20, 1500)
 	for k := 0; k < n; k++ {
 		id := cs.NextID()
@@ -89,10 +179,14 @@ func TestVerifC16Upgrade(t *testing.T) {
 				s.dialed = 2
 				if r.Chance(35) {
 					s.dialed = []int{1, 3}[r.Intn(2)]
+				} else if r.Chance(30) {
+					s.dialed = 10 + r.Intn(10)
 				}
 			}
 			if r.Chance(40) {
 				s.ni = 1 + r.Intn(3)
+			} else if r.Chance(30) {
+				s.ni = 10 + r.Intn(10)
 			} else {
 				s.ni = s.key
 			}
@@ -150,25 +244,11 @@ func TestVerifC16Upgrade(t *testing.T) {
 		case <-time.After(20 * time.Second):
 			t.Fatalf("upgrade hangs: %+v", s)
 		}
-		code := 9
+		code := c16Class(ra.err)
 		idsOK := false
 		if ra.err == nil {
-			code = 0
 			idsOK = ra.sc != nil && ra.ni != nil && PubKeyToID(ra.sc.RemotePubKey()) == c16ID(s.key) &&
 				ra.ni.ID() == c16ID(s.key)
-		} else if e, ok := ra.err.(ErrRejected); ok {
-			switch {
-			case e.IsSelf():
-				code = 6
-			case e.IsNodeInfoInvalid():
-				code = 4
-			case e.IsIncompatible():
-				code = 7
-			case e.IsAuthFailure() && e.id != "":
-				code = 2 // dialled-id or NodeInfo-id mismatch
-			case e.IsAuthFailure():
-				code = 1 // secret connection or NodeInfo exchange failed
-			}
 		}
 		_ = c1.Close()
 		_ = c2.Close()
@@ -180,8 +260,191 @@ func TestVerifC16Upgrade(t *testing.T) {
 		ni := vg.Opt(s.remote == 0, vg.N(uint64(s.ni)))
 		cs.Add(id, fmt.Sprintf("remote%d-res%d", s.remote, code), s.remote != 0 || s.dialed != 0 || s.ni != s.key || !s.valid || !s.compat,
 			vg.App("CUpgrade", key, vg.Opt(s.dialed != 0, vg.N(uint64(s.dialed))), ni, vg.B(s.valid), vg.N(1), vg.B(s.compat), vg.N(uint64(code)), vg.B(idsOK)),
-			fmt.Sprintf("upgrade by node 1; remote kind %d authenticates with the key of node %d, NodeInfo.ID of node %d (valid=%v, same network=%v); dialled id: node %d (0 = inbound) -> class %d (err=%v)",
-				s.remote, s.key, s.ni, s.valid, s.compat, s.dialed, code, ra.err))
+			fmt.Sprintf("upgrade by node 1; remote kind %d authenticates with the key of node %d, NodeInfo.ID of node %s (valid=%v, same network=%v); dialled id: node %s (0 = inbound) -> class %d (err=%v)",
+				s.remote, s.key, c16IDName(s.ni), s.valid, s.compat, c16IDName(s.dialed), code, ra.err))
+	}
+	if err := cs.Write(); err != nil {
+		t.Fatal(err)
+	}
+}
+
+// ---------------------------------------------------------------- through the real Dial / Accept
+
+// TestVerifC16Dial: the same question asked of the paths a node really uses. Two real
+// MultiplexTransports over loopback TCP: the observed one (node 1) either DIALS the remote's
+// listener under a chosen dialled id (MultiplexTransport.Dial) or ACCEPTS the remote's dial
+// (Listen / acceptPeers / Accept). The remote authenticates with a chosen node key and reports
+// a chosen NodeInfo.ID. Observed: the result class and, on success, the ids of the Peer handed
+// out (Peer.ID, NodeInfo.ID, the secret connection's authenticated key).
+func TestVerifC16Dial(t *testing.T) {
+	root := vg.NewRand(vg.Seed() ^ 0xc16d)
+	cs := vg.NewCases("C16", "c16_dial", "TM.C16.Exec")
+	cs.Samples = []string{}
+	type sc struct {
+		inbound       bool // observed node accepts instead of dialling
+		key           int
+		dialed        int // id the observed node dials (outbound only)
+		ni            int
+		valid, compat bool
+	}
+	grid := []sc{
+		// outbound: right id, other node's id, own id, wrong NodeInfo, self, invalid, other network
+		{false, 2, 2, 2, true, true}, {false, 2, 3, 2, true, true}, {false, 2, 1, 2, true, true},
+		{false, 2, 3, 3, true, true}, {false, 2, 2, 3, true, true}, {false, 2, 2, 1, true, true},
+		{false, 1, 1, 1, true, true}, {false, 2, 2, 2, false, true}, {false, 2, 2, 2, true, false},
+		{false, 2, 3, 2, false, false}, {false, 3, 2, 3, true, true}, {false, 3, 2, 2, true, true},
+		// inbound
+		{true, 2, 0, 2, true, true}, {true, 2, 0, 3, true, true}, {true, 2, 0, 1, true, true},
+		{true, 1, 0, 1, true, true}, {true, 2, 0, 2, false, true}, {true, 2, 0, 2, true, false},
+		{true, 3, 0, 2, true, true},
+	}
+	for nm := 10; nm <= 19; nm++ {
+		grid = append(grid, sc{false, 2, nm, 2, true, true}, sc{false, 2, 2, nm, true, true},
+			sc{false, 2, nm, nm, true, true}, sc{true, 2, 0, nm, true, true})
+	}
+	n := len(grid) + vg.Scale(25, 1500)
+	for k := 0; k < n; k++ {
+		id := cs.NextID()
+		if !cs.Want(id) {
+			continue
+		}
+		r := root.Fork(uint64(k))
+		var s sc
+		if k < len(grid) {
+			s = grid[k]
+		} else {
+			s = sc{inbound: r.Chance(40), key: 2, dialed: 2, ni: 2, valid: true, compat: true}
+			if r.Chance(20) {
+				s.key = []int{1, 3}[r.Intn(2)]
+			}
+			switch x := r.Intn(10); {
+			case x < 4:
+				s.dialed = s.key
+			case x < 7:
+				s.dialed = 1 + r.Intn(3)
+			default:
+				s.dialed = 10 + r.Intn(10)
+			}
+			switch x := r.Intn(10); {
+			case x < 5:
+				s.ni = s.key
+			case x < 7:
+				s.ni = 1 + r.Intn(3)
+			default:
+				s.ni = 10 + r.Intn(10)
+			}
+			s.valid = !r.Chance(12)
+			s.compat = !r.Chance(12)
+		}
+		if s.inbound {
+			s.dialed = 0
+		}
+		network := "testing"
+		if !s.compat {
+			network = "other-chain"
+		}
+		mtA := NewMultiplexTransport(c16Info(c16ID(1), true, "testing"), NodeKey{PrivKey: c16NodeKey(1)}, conn.DefaultMConnConfig())
+		mtB := NewMultiplexTransport(c16Info(c16ID(s.ni), s.valid, network), NodeKey{PrivKey: c16NodeKey(s.key)}, conn.DefaultMConnConfig())
+		type res struct {
+			p   Peer
+			err error
+		}
+		adone := make(chan res, 1)
+		bdone := make(chan struct{})
+		observe := func(f func() (Peer, error)) {
+			defer func() {
+				if x := recover(); x != nil {
+					adone <- res{nil, fmt.Errorf("panic: %v", x)}
+				}
+			}()
+			p, err := f()
+			adone <- res{p, err}
+		}
+		listen := func(mt *MultiplexTransport, who int) *NetAddress {
+			la := NewNetAddressIPPort(net.ParseIP("127.0.0.1"), 0)
+			la.ID = c16ID(who)
+			if err := mt.Listen(*la); err != nil {
+				t.Fatalf("listen: %v", err)
+			}
+			tcp := mt.listener.Addr().(*net.TCPAddr)
+			return NewNetAddressIPPort(net.ParseIP("127.0.0.1"), uint16(tcp.Port))
+		}
+		if s.inbound {
+			addr := listen(mtA, 1)
+			addr.ID = c16ID(1)
+			go func() {
+				defer close(bdone)
+				if p, err := mtB.Dial(*addr, peerConfig{}); err == nil {
+					// keep the connection until the observed end has decided
+					select {
+					case <-time.After(5 * time.Second):
+					case <-mtB.closec:
+					}
+					mtB.Cleanup(p)
+				}
+			}()
+			go observe(func() (Peer, error) { return mtA.Accept(peerConfig{}) })
+		} else {
+			addr := listen(mtB, s.key)
+			addr.ID = c16ID(s.dialed)
+			go func() {
+				defer close(bdone)
+				if p, err := mtB.Accept(peerConfig{}); err == nil {
+					select {
+					case <-time.After(5 * time.Second):
+					case <-mtB.closec:
+					}
+					mtB.Cleanup(p)
+				}
+			}()
+			go observe(func() (Peer, error) { return mtA.Dial(*addr, peerConfig{}) })
+		}
+		var ra res
+		select {
+		case ra = <-adone:
+		case <-time.After(30 * time.Second):
+			t.Fatalf("dial/accept hangs: %+v", s)
+		}
+		code := c16Class(ra.err)
+		idsOK := false
+		if ra.err == nil && ra.p != nil {
+			want := c16ID(s.key)
+			idsOK = ra.p.ID() == want && ra.p.NodeInfo() != nil && ra.p.NodeInfo().ID() == want
+			if pp, ok := ra.p.(*peer); ok {
+				if sconn, ok := pp.peerConn.conn.(*conn.SecretConnection); ok {
+					idsOK = idsOK && PubKeyToID(sconn.RemotePubKey()) == want
+				} else {
+					idsOK = false
+				}
+			}
+			if !s.inbound {
+				// the peer handed out for a dialled address carries the id that was dialled
+				idsOK = idsOK && (ra.p.ID() == c16ID(s.dialed))
+			}
+			mtA.Cleanup(ra.p)
+		}
+		_ = mtB.Close()
+		_ = mtA.Close()
+		select {
+		case <-bdone:
+		case <-time.After(10 * time.Second):
+		}
+		path := "MultiplexTransport.Dial"
+		if s.inbound {
+			path = "MultiplexTransport.Listen/Accept"
+		}
+		kind := fmt.Sprintf("out-res%d", code)
+		if s.inbound {
+			kind = fmt.Sprintf("in-res%d", code)
+		}
+		if s.ni >= 10 || s.dialed >= 10 {
+			kind += "-nearmiss"
+		}
+		cs.Add(id, kind, s.inbound || s.dialed != s.key || s.ni != s.key || !s.valid || !s.compat,
+			vg.App("CUpgrade", vg.Opt(true, vg.N(uint64(s.key))), vg.Opt(!s.inbound, vg.N(uint64(s.dialed))),
+				vg.Opt(true, vg.N(uint64(s.ni))), vg.B(s.valid), vg.N(1), vg.B(s.compat), vg.N(uint64(code)), vg.B(idsOK)),
+			fmt.Sprintf("%s of node 1 over loopback TCP; the remote transport authenticates with the key of node %d (id %s) and reports NodeInfo.ID of node %s (valid=%v, same network=%v); id dialled by node 1: node %s (0 = inbound) -> class %d (err=%v), peer ids are those of the authenticated key: %v",
+				path, s.key, c16ID(s.key), c16IDName(s.ni), s.valid, s.compat, c16IDName(s.dialed), code, ra.err, idsOK))
 	}
 	if err := cs.Write(); err != nil {
 		t.Fatal(err)
